@@ -21,7 +21,7 @@ Code it is anchored in: {', '.join(p['anchors']['files'])}
 YOUR TASK: produce up to {'THREE' if rnd else 'TWO'} different, realistic source changes ("seeded faults") to the library code in {wt} (not to tests) such that each change
   (1) makes the property above FALSE for some admissible input/configuration/history,
   (2) still imports/compiles and still passes the project's existing test-suite, and
-  (3) is NOT exposed by ordinary use at once: it must need something specific to manifest -- a particular interleaving or arrival order, a multi-step sequence of operations, an unusual but admissible input (e.g. sizes not divisible by the process count, an extent equal to the process count, a shift larger than the domain, a point exactly on a knot, odd number of points, a rarely used option), a fault/crash at a particular point, or two cooperating code sites that each look fine alone. Prefer subtle realistic programmer mistakes (off-by-one, wrong index after a refactoring, local-vs-global index, stale buffer, swapped arguments that coincide in the symmetric case, missing special case, wrong tie-break, boundary comparison < vs <=) over crude sabotage. The changes should exercise different mechanisms.{" In this round favour mechanisms that depend on HISTORY or CONTEXT rather than on a single call: state carried between calls of the same object (caches, scratch buffers, counters, aliased arrays mutated in place), objects shared by two users, the second/third use of something, a rarely used optional argument or non-default option, an admissible but unusual combination (mixed spline degrees, odd sizes, extents equal to the process count, process extents of 1, complex instead of real data, non-default boundary mode), behaviour that differs between ranks of a process grid, or something that depends on the order in which ranks arrive. Avoid the most obvious single-line arithmetic slips." if rnd else ""}
+  (3) is NOT exposed by ordinary use at once: it must need something specific to manifest -- a particular interleaving or arrival order, a multi-step sequence of operations, an unusual but admissible input (e.g. sizes not divisible by the process count, an extent equal to the process count, a shift larger than the domain, a point exactly on a knot, odd number of points, a rarely used option), a fault/crash at a particular point, or two cooperating code sites that each look fine alone. Prefer subtle realistic programmer mistakes (off-by-one, wrong index after a refactoring, local-vs-global index, stale buffer, swapped arguments that coincide in the symmetric case, missing special case, wrong tie-break, boundary comparison < vs <=) over crude sabotage. The changes should exercise different mechanisms.{" In this round favour mechanisms that depend on HISTORY or CONTEXT rather than on a single call: state carried between calls of the same object (caches, scratch buffers, counters, aliased arrays mutated in place), objects shared by two users, the second/third use of something, a rarely used optional argument or non-default option, an admissible but unusual combination (mixed spline degrees, odd sizes, extents equal to the process count, process extents of 1, complex instead of real data, non-default boundary mode), behaviour that differs between ranks of a process grid, or something that depends on the order in which ranks arrive. Avoid the most obvious single-line arithmetic slips." if rnd == "_r2" else (" In this round favour QUIET faults: changes whose effect is numerically small (relative error 1e-4 down to 1e-10, i.e. far above rounding but easy to mistake for it), or confined to a thin set of inputs (one boundary row, one end point, one mode, one rank, one special parameter value such as an exact multiple of the cell size, a zero, an odd/even size, a degenerate extent of 1), or that only changes WHICH of several admissible-looking results is returned (wrong but plausible), or that depends on the order in which ranks reach a collective or on which rank is the root. The demonstration must still separate the fault clearly from floating-point rounding (state the two magnitudes)." if rnd == "_r3" else "")}
 
 IMPORTANT: other agents run concurrently on this machine: never use pkill/killall or kill processes by pattern; only stop processes you started yourself, by PID.
 
